@@ -410,4 +410,28 @@ def handleCfgCheck (args : List Sexp) : Sexp :=
   | some (.list [.atom "impl", other]) => .list [.atom "fail", .ofString ("unexpected answer " ++ (toString other).take 200)]
   | _ => .list [.atom "bad-request"]
 
+/-- `(cfgcheck-cxx … (impl (header (fn "name" value|void <code>)…)))`: every function body found in the REAL support
+    header (re-read from its goto-structured C++ text by the harness) must pass `Cfg.checkFn`: jump targets exist,
+    reachable blocks end in a jump or return (no `Q_UNREACHABLE`, no falling off), temporaries assigned before read
+    on every path, and a value-returning function has no reachable bare `return;` -/
+def handleCfgCheckCxx (args : List Sexp) : Sexp :=
+  match args.getLast? with
+  | some (.list [.atom "impl", .list (.atom "header" :: fns)]) =>
+    let bad := fns.filterMap fun f =>
+      match f with
+      | .list [.atom "fn", .str name, .atom ret, code] =>
+        (match codeBodyOf? code with
+         | some c =>
+           -- only the one function generated from the request's program has user-declared locals to exempt
+           let ex := if fns.length = 1 then userUninitOf args else []
+           if QV.Model.Cfg.checkFn (ret == "value") (QV.Model.Cfg.eraseExempt ex c) then none else some (Sexp.str name)
+         | none => some (.list [.atom "unreadable", .str name]))
+      | other => some (.list [.atom "unreadable-entry", .ofString (((toString other).take 80).toString)])
+    if bad.isEmpty then .list [.atom "ok", Sexp.ofNat fns.length]
+    else .list (.atom "fail" :: .ofString "function bodies of the real header rejected by the CFG check" :: bad)
+  | some (.list [.atom "impl", .list (.atom "rejected" :: _)]) => .list [.atom "ok", .atom "rejected"]
+  | some (.list [.atom "impl", .list (.atom "syntax-error" :: _)]) => .list [.atom "ok", .atom "syntax-error"]
+  | some (.list [.atom "impl", other]) => .list [.atom "fail", .ofString ("unexpected answer " ++ (toString other).take 200)]
+  | _ => .list [.atom "bad-request"]
+
 end QV.Driver.Ir
